@@ -16,9 +16,10 @@ CONSTANTS MaxDepth, Off, Faults
 VARIABLES poly,      \* current coefficient vector <<c0, .., c4>>
           method,    \* "midpoint" | "trapezoid" | "simpson" | "exact" (numerical quadrature / antiderivative)
           edges, density, nEntries,
+          nOut,      \* how many of the entries lie outside the bin range (underflow / overflow): they count as entries
           stored,    \* the bin contents held by the parametric model (x 960)
           stale, act, obs
-vars == <<poly, method, edges, density, nEntries, stored, stale, act, obs>>
+vars == <<poly, method, edges, density, nEntries, nOut, stored, stale, act, obs>>
 
 Polys == {<<1, 0, 0, 0, 0>>, <<1, 1, 0, 0, 0>>, <<0, 0, 1, 0, 0>>, <<2, -1, 0, 1, 0>>, <<0, 0, 0, 0, 1>>, <<1, 0, 1, 0, 1>>}
 Degree(c) == CHOOSE k \in 0..4 : c[k + 1] # 0 /\ \A j \in (k + 1)..4 : c[j + 1] = 0
@@ -43,7 +44,7 @@ Bins(m, c, e) == [i \in 1..(Len(e) - 1) |-> Rule960(m, c, e[i], e[i + 1])]
 
 Bounded(name) == TLCGet("level") <= MaxDepth /\ name \notin Off
 Init ==
-  /\ poly \in Polys /\ method \in Methods /\ edges \in EdgeSets /\ density \in BOOLEAN /\ nEntries \in {7}
+  /\ poly \in Polys /\ method \in Methods /\ edges \in EdgeSets /\ density \in BOOLEAN /\ nEntries \in {7} /\ nOut \in {0, 2}
   /\ (method \in {"rectangle", "vectorised"} => poly \in {<<1, 1, 0, 0, 0>>, <<0, 0, 0, 0, 1>>})       \* aliases: fewer starting points
   /\ stored = Bins(method, poly, edges) /\ stale = FALSE
   /\ act = [name |-> "Init"] /\ obs = [kind |-> "none"]
@@ -52,22 +53,23 @@ SetParams(c) ==
   /\ Bounded("SetParams") /\ c \in Polys /\ c # poly
   /\ poly' = c /\ stale' = ("no_stale_flag" \notin Faults)
   /\ act' = [name |-> "SetParams", c |-> c] /\ obs' = [kind |-> "none"]
-  /\ UNCHANGED <<method, edges, density, nEntries, stored>>
+  /\ UNCHANGED <<method, edges, density, nEntries, nOut, stored>>
 
 ReadModel ==             \* HistParametricModel.data (x 960), and HistFit.model = data * n_entries for a density
   /\ Bounded("ReadModel")
   /\ LET b == IF stale THEN Bins(method, poly, edges) ELSE stored IN
        /\ stored' = b /\ stale' = FALSE
        /\ obs' = [kind |-> "value", bins |-> b,
-                  fit |-> [i \in DOMAIN b |-> b[i] * (IF density /\ "no_entry_scaling" \notin Faults THEN nEntries ELSE 1)]]
+                  fit |-> [i \in DOMAIN b |-> b[i] * (IF density /\ "no_entry_scaling" \notin Faults
+                                                THEN (IF "scale_by_in_range" \in Faults THEN nEntries - nOut ELSE nEntries) ELSE 1)]]
   /\ act' = [name |-> "ReadModel"]
-  /\ UNCHANGED <<poly, method, edges, density, nEntries>>
+  /\ UNCHANGED <<poly, method, edges, density, nEntries, nOut>>
 
-SetData(e, n) ==         \* fit.data = new histogram: other edges and number of entries; a NEW parametric model is built
-  /\ Bounded("SetData") /\ e \in EdgeSets /\ n \in Entries /\ <<e, n>> # <<edges, nEntries>>
-  /\ edges' = e /\ nEntries' = n
+SetData(e, n, out) ==         \* fit.data = new histogram: other edges and number of entries; a NEW parametric model is built
+  /\ Bounded("SetData") /\ e \in EdgeSets /\ n \in Entries /\ out \in {0, 2} /\ <<e, n, out>> # <<edges, nEntries, nOut>>
+  /\ edges' = e /\ nEntries' = n /\ nOut' = out
   /\ stored' = (IF "new_model_keeps_old_bins" \in Faults THEN stored ELSE Bins(method, poly, e)) /\ stale' = FALSE
-  /\ act' = [name |-> "SetData", edges |-> e, n |-> n] /\ obs' = [kind |-> "none"]
+  /\ act' = [name |-> "SetData", edges |-> e, n |-> n, out |-> out] /\ obs' = [kind |-> "none"]
   /\ UNCHANGED <<poly, method, density>>
 
 Rebin(e) ==             \* HistParametricModel.rebin(new edges): the same model object, other bin edges
@@ -75,9 +77,9 @@ Rebin(e) ==             \* HistParametricModel.rebin(new edges): the same model 
   /\ edges' = e
   /\ stored' = [i \in 1..(Len(e) - 1) |-> 0] /\ stale' = ("rebin_keeps_zeros" \notin Faults)
   /\ act' = [name |-> "Rebin", edges |-> e] /\ obs' = [kind |-> "none"]
-  /\ UNCHANGED <<poly, method, density, nEntries>>
+  /\ UNCHANGED <<poly, method, density, nEntries, nOut>>
 
-Next == (\E c \in Polys : SetParams(c)) \/ ReadModel \/ (\E e \in EdgeSets, n \in Entries : SetData(e, n)) \/ (\E e \in EdgeSets : Rebin(e))
+Next == (\E c \in Polys : SetParams(c)) \/ ReadModel \/ (\E e \in EdgeSets, n \in Entries, out \in {0, 2} : SetData(e, n, out)) \/ (\E e \in EdgeSets : Rebin(e))
 Spec == Init /\ [][Next]_vars
 
 -----------------------------------------------------------------------------
